@@ -126,7 +126,7 @@ fn main() {
             p.max_shrink_iters = 4;
             parts.push(p);
             (
-                "part real-resets-then-service: 1-11 TCP connections reset (SO_LINGER 0) before the server accepts them - queued before it starts, or against the running server - then 1-3 ordinary connections, each of which must be accepted and its request delivered within 3 s (re-measured); part real-slow-body: two connections, two application threads; A's response body (HTTP/1.0, TE: identity or chunked streaming; length declared or not) comes from a reader that stalls at its start or after 10 bytes until B has its answer (gives up after 4 s); B's handler answers once A's is inside respond(); oracle (re-measured): B's answer arrives while A's reader is still stalled; part real-idle: real TCP/UNIX sockets: 1-6 connections that are open but silent (no byte sent yet) or stalled in the middle of a request head, then 1-6 connections with complete requests; oracle (differential, re-measured): every complete request is answered while the idle connections stay open; a violation needs, twice in a row on fresh servers, a request that got no answer for 5 s and got it as soon as the idle connections were closed; non-trivial: >= 5 connections",
+                "part real-half-body: connection A stops after a generated part of a 6000-byte body its handler does not read (the application thread that answered it waits for the rest); connection B sends a request with an unread body of 1025-20000 bytes and 1-2 further requests: B has all its answers within 4 s while A stays stalled (two application threads; differential: only answered-after-A-had-gone, twice in a row, is a violation); part real-resets-then-service: 1-11 TCP connections reset (SO_LINGER 0) before the server accepts them - queued before it starts, or against the running server - then 1-3 ordinary connections, each of which must be accepted and its request delivered within 3 s (re-measured); part real-slow-body: two connections, two application threads; A's response body (HTTP/1.0, TE: identity or chunked streaming; length declared or not) comes from a reader that stalls at its start or after 10 bytes until B has its answer (gives up after 4 s); B's handler answers once A's is inside respond(); oracle (re-measured): B's answer arrives while A's reader is still stalled; part real-idle: real TCP/UNIX sockets: 1-6 connections that are open but silent (no byte sent yet) or stalled in the middle of a request head, then 1-6 connections with complete requests; oracle (differential, re-measured): every complete request is answered while the idle connections stay open; a violation needs, twice in a row on fresh servers, a request that got no answer for 5 s and got it as soon as the idle connections were closed; non-trivial: >= 5 connections",
                 vec!["socket engine: only positive re-measured evidence of a dependence on another connection ending counts as a violation; anything else that is slow is inconclusive"],
             )
         }
